@@ -263,7 +263,9 @@ CLAIMS = {
          "failure paths with sync/chopped writes still queued.",
          "Trusted: Coq kernel, the ast/import translator (fail-closed), CPython utf-8 codec and zlib as oracles. Modelled, not "
          "verified: the UTF-8 validator as the RFC 3629 automaton (table equality is C09), the masker as xor_spec (C15), the "
-         "decompressor as a Section oracle; timers, statistics, asyncio receive queue unmodelled. Known findings: split-dependent/"
+         "decompressor as a TOTAL Section oracle: the branch that fails the connection when the codec rejects the compressed "
+         "payload (/repo d7bccdc3) is outside the theorems and decided by differential testing against the RFC oracle "
+         "(codec_error_stage); timers, statistics, asyncio receive queue unmodelled. Known findings: split-dependent/"
          "failByDrop=False, client/processing-after-close-frame, control-callback-after-violation (2).",
          "generated constants, field-level vm_compute sweep, invariant and simulation proofs, differential runs"),
  "C16": ("5 C16",
